@@ -219,6 +219,12 @@ fn run_clone(ctx: &mut Ctx) {
     if f.prior.is_some() && !f.blockdev && gen::chance(1, 8) {
         extra.alias_output_as_seed = Some(*gen::t(|t| t.pick(&["out.bin", "./out.bin", "out.bin"])));
     }
+    // the existing output is one of two names of a file (a snapshot made with cp -l): the clone
+    // writes through the name it was given, it does not replace the file
+    if f.prior.is_some() && !f.blockdev && gen::chance(1, 10) {
+        extra.hard_link_output = true;
+        simkit::count("probe:output-has-a-second-hard-link");
+    }
     let ob = clonefam::execute_with(&f, presented.as_deref(), &extra);
     let outcome = ob.outcome.clone().unwrap();
     // O4 (DESIGN.md section 6): the aliased seed grows while it is scanned and the chunker panics
@@ -263,7 +269,9 @@ fn run_clone(ctx: &mut Ctx) {
             changed.push(format!("-{}", k));
         }
     }
-    if let Some(c) = changed.iter().find(|c| c.as_str() != "out.bin") {
+    // (the second name of the output shows the same file: it changes with it, and only with it)
+    let hl_ok = |c: &str| c == "out.hl" && extra.hard_link_output && ob.listing_after.get("out.hl") == ob.listing_after.get("out.bin");
+    if let Some(c) = changed.iter().find(|c| c.as_str() != "out.bin" && !hl_ok(c.as_str())) {
         ctx.fail("sandbox-changed", format!("after the clone the sandbox differs at {:?} (all changes: {:?}); {}", c, changed, f.desc));
         return;
     }
@@ -280,18 +288,31 @@ fn run_compress(ctx: &mut Ctx) {
     let stdin = gen::chance(1, 3);
     let force = gen::chance(1, 3);
     let existing = force && gen::chance(1, 2);
-    let name = *gen::t(|t| t.pick(&["a.cba", "archive", "x.y.cba", "dir.d/a.cba"]));
+    // file names are bytes: two of the names are not valid UTF-8 (in the stem, in a directory)
+    use std::os::unix::ffi::OsStrExt;
+    const NAMES: [&[u8]; 8] = [b"a.cba", b"archive", b"x.y.cba", b"dir.d/a.cba", b"arch\xff.cba", b"dir.d/o\xfeut.cba", b"a.cba", b"x.y.cba"];
+    let name_bytes: &[u8] = NAMES[gen::draw(NAMES.len() as u32) as usize];
+    let name_os = std::ffi::OsStr::from_bytes(name_bytes).to_os_string();
+    let name_lossy = name_os.to_string_lossy().to_string();
+    let name: &str = &name_lossy;
+    if std::str::from_utf8(name_bytes).is_err() {
+        simkit::count("probe:archive-name-not-utf8");
+    }
     scen::quiet(|| {
         let _ = std::fs::create_dir_all("dir.d");
     });
     if existing {
-        scen::put_file(name, b"previous content of the archive path");
+        scen::quiet(|| std::fs::write(&name_os, b"previous content of the archive path").expect("sandbox write"));
     }
     if !stdin {
         scen::put_file("src.bin", &data);
     }
     scen::set_stdin(if stdin { Some(data.clone()) } else { None });
-    let args = scen::compress_args(&spec, if stdin { None } else { Some("src.bin") }, name, force);
+    let args: Vec<std::ffi::OsString> = {
+        let mut a: Vec<std::ffi::OsString> = scen::compress_args(&spec, if stdin { None } else { Some("src.bin") }, "OUTPUT", force).into_iter().map(Into::into).collect();
+        *a.last_mut().unwrap() = name_os.clone();
+        a
+    };
     let sched = scen::draw_schedule();
     scen::draw_short_reads();
     let desc = json!({"options": spec.json(), "source": sspec.json(), "stdin": stdin, "force_create": force, "existing_output": existing, "output": name, "schedule": sched});
@@ -316,7 +337,7 @@ fn run_compress(ctx: &mut Ctx) {
     };
     let before = list_dir("dir.d");
     sys::with(|s| s.log.clear());
-    let r = scen::run(&args);
+    let r = crate::cli::run_cli_os(&args);
     scen::set_stdin(None);
     let after = list_dir("dir.d");
     if !r.outcome.is_success() {
@@ -364,7 +385,7 @@ fn run_compress(ctx: &mut Ctx) {
     // killed and left its temporary chunk file behind (planted under the name the first run was
     // seen to create). bita may reuse and remove that file or work around it; a successful run
     // still leaves no new file but the archive.
-    if !gen::chance(1, 5) {
+    if !gen::chance(1, 5) || std::str::from_utf8(name_bytes).is_err() {
         return;
     }
     let temp = events.iter().find(|(op, p, a, ret)| *op == sys::Op::Open && a & libc::O_CREAT as i64 != 0 && *ret >= 0 && p != name && !p.starts_with('/') && !before.contains_key(p)).map(|(_, p, _, _)| p.clone());
@@ -374,11 +395,15 @@ fn run_compress(ctx: &mut Ctx) {
         scen::put_file("src.bin", &data);
     }
     scen::set_stdin(if stdin { Some(data.clone()) } else { None });
-    let args2 = scen::compress_args(&spec, if stdin { None } else { Some("src.bin") }, name, true);
+    let args2: Vec<std::ffi::OsString> = {
+        let mut a: Vec<std::ffi::OsString> = scen::compress_args(&spec, if stdin { None } else { Some("src.bin") }, "OUTPUT", true).into_iter().map(Into::into).collect();
+        *a.last_mut().unwrap() = name_os.clone();
+        a
+    };
     scen::draw_schedule();
     let before2 = list_dir("dir.d");
     sys::with(|s| s.log.clear());
-    let r2 = scen::run(&args2);
+    let r2 = crate::cli::run_cli_os(&args2);
     scen::set_stdin(None);
     let after2 = list_dir("dir.d");
     simkit::count("probe:compress-after-stale-temp-file");
